@@ -5,7 +5,9 @@ stoichiometry functions apart from the component functions` and `fix: a function
 assignment or a computed stoichiometry is taken from then on`), and of what executing the generated source does
 (`exec(src); create_model()`).
 
-Python functions are entries of a function table (`fid` = object identity): an entry has a
+Python functions are entries of a function table (`fid` = the function up to its translation: the generator
+never looks at object identity, only at `__name__` and the translated expression; an out-of-range `fid` denotes the
+default entry `{name := "", fn := default}` — contents are meant with `fid < fns.length`, the wire format guarantees it): an entry has a
 `__name__` and a behaviour `List Rat → Rat`.  ASSUMPTION (C06's subject): for a translatable function,
 `fn_to_sympy(fn, model_args = symbols(args))` denotes "fn applied to the values of args"; the sympy
 expression is therefore represented by the pair (fn, args) = a core `Fn`, and
@@ -348,8 +350,9 @@ def refFn (fns : List SymFn) (name : String) : Option SymFn :=
   fns.find? fun g => g.fnName == name && !hasDup g.args
 
 /-- `_check_function_names`, second loop: every use of a name is that name's function applied to the use's arguments.
-    The code compares translated expressions; the model compares the function objects they were translated from
-    (ghost `src`; ASSUMPTION C06: equal functions have equal translations and different functions different ones) -/
+    The code compares TRANSLATED EXPRESSIONS, not function objects: `src` / `fid` stand for the translation class of a
+    function (two function objects with the same translation - a helper copied into two modules - are one `fid`; the
+    harness assigns fids that way).  ASSUMPTION C06: functions with different behaviour have different translations. -/
 def namesConsistent (s : SymRepr) : Bool :=
   (compFns s).all fun f => match refFn (compFns s) f.fnName with
     | some g => g.src == f.src
